@@ -61,6 +61,7 @@ func ZZ_WatchSingle() {
 	published := W
 	initialSeen := false
 	errored := false
+	lastPos := W - 1 // position of the last event the watcher is known to have passed
 	recvOne := func() {
 		ev := <-ch
 		if !initialSeen {
@@ -77,6 +78,7 @@ func ZZ_WatchSingle() {
 			return
 		}
 		verif.Assert(len(expect) > 0 && ev.Resource.Metadata().ID() == "x" && zzTag(ev) == expect[0], "only the changes of the watched resource are delivered, each once and in commit order")
+		lastPos = expect[0]
 		expect = expect[1:]
 	}
 	recvOne() // initial state
@@ -104,6 +106,7 @@ func ZZ_WatchSingle() {
 	}
 	if errored {
 		verif.Cover("overrun reported")
+		verif.Assert(published-(lastPos+1) > int64(cfg.capacity), "a single-resource watcher is errored only if it lagged by more than the (initial) capacity")
 	} else {
 		verif.Cover("stream complete")
 	}
